@@ -229,4 +229,113 @@ Section Follow.
       + rewrite Fs. intros id [].
       + intros HS'. rewrite HS' in Hrev. discriminate.
   Qed.
+
+  (* ---------------------------------------------------------------- the lookups recorded after a step *)
+
+  Lemma stack_in_U s Fin S : Inv s Fin S -> forall c, In c S -> In c U.
+  Proof.
+    intros HI c Hc. pose proof (i_head _ _ _ _ _ _ HI) as Hh. destruct (last_sent s) as [hd|].
+    - destruct Hh as (_ & p & Hch & -> & _). apply in_rev in Hc.
+      apply in_app_or in Hc as [Hc|Hc].
+      + pose proof (i_fin _ _ _ _ _ _ HI) as Hf. rewrite Forall_forall in Hf. apply (Hf c Hc).
+      + apply in_map_iff in Hc as (e & <- & He). apply (di_inU _ _ _ (i_db _ _ _ _ _ _ HI)). eapply chain_in; eassumption.
+    - destruct Hh as (-> & _). destruct Hc.
+  Qed.
+
+  (* the blocks received so far: retained, or under the LIB *)
+  Definition seen_ok (s : fstate) (seen : list block) : Prop :=
+    forall x, In x seen -> In x U /\ (st s x \/ bnum x < rn (libref (db s))).
+
+  (* lowest_from of the monitor walks the retained chain of the head *)
+  Lemma lowest_from_chain s ids : (forall id, memN id ids = true <-> In id (keys (store (db s)))) ->
+    in_U U (store (db s)) ->
+    forall x bot q, chain (store (db s)) x bot q -> find bot (store (db s)) = None ->
+    forall qq e, q = qq ++ [e] -> forall fuel, (length qq <= fuel)%nat ->
+    lowest_from fuel U ids (eb e) = match q with e0 :: _ => bnum (eb e0) | [] => 0 end.
+  Proof.
+    intros Hids HU x bot q Hc. induction Hc as [x|x y e0 p0 Hne Hf Hc IH]; intros Hbot qq e Hqe fuel Hlen; [destruct qq; discriminate|].
+    apply app_inj_tail in Hqe as [-> ->].
+    destruct qq as [|e' qq' _] using rev_ind.
+    - apply chain_nil_inv in Hc. cbn [app].
+      destruct fuel as [|f]; [reflexivity|]. cbn [lowest_from].
+      destruct (lookup (bparent (eb e)) U) as [p'|] eqn:L; [|reflexivity].
+      destruct (lookup_sound _ _ _ L) as [_ Hpid].
+      destruct (memN (bid p') ids) eqn:M; [|reflexivity]. exfalso.
+      apply Hids in M. rewrite Hpid, Hc in M. apply find_is_some_in in M as [e1 He1]. congruence.
+    - destruct (chain_top _ _ _ _ _ Hc) as [Hf' Hk'].
+      assert (He'U : In (eb e') U) by (apply HU; apply find_some in Hf'; tauto).
+      rewrite app_length in Hlen. cbn [length] in Hlen. destruct fuel as [|f]; [lia|]. cbn [lowest_from].
+      assert (L : lookup (bparent (eb e)) U = Some (eb e')).
+      { rewrite <- Hk'. apply (lookup_U U U_uniq). exact He'U. }
+      rewrite L.
+      assert (M : memN (bid (eb e')) ids = true).
+      { apply Hids. apply (in_map key). apply find_some in Hf'. tauto. }
+      rewrite M. rewrite (IH Hbot qq' e' eq_refl f) by lia.
+      destruct (qq' ++ [e']) as [|z l] eqn:Z; [destruct qq'; discriminate | reflexivity].
+  Qed.
+
+  Lemma chain_len_U (l : list entry) x bot q : NoDup (keys l) -> in_U U l -> wf_store l -> chain l x bot q -> (length q <= length U)%nat.
+  Proof.
+    intros Hnd HU Hwf Hc. rewrite <- (map_length eb q). apply NoDup_incl_length.
+    - apply (NoDup_map_inv bid). rewrite map_map. apply (chain_nodup _ _ _ _ Hwf Hc).
+    - intros b Hb. apply in_map_iff in Hb as (e & <- & He). apply HU. eapply chain_in; eassumption.
+  Qed.
+
+  Lemma look_ok_model s Fin S mon seen moved : Inv s Fin S -> Ext s Fin S -> MInv s Fin S mon ->
+    seen_ok s seen -> (moved = true -> bounded (db s) kept) ->
+    look_ok kept U seen qh qi mon moved (model_look s qh qi) = true.
+  Proof.
+    intros HI HE [Hms _ Hml _ _ _] Hseen Hmoved.
+    pose proof (i_db _ _ _ _ _ _ HI) as Hdb. pose proof (di_inU _ _ _ Hdb) as HU.
+    pose proof (di_wf U r0 U_id U_up _ Hdb) as Hwf.
+    unfold look_ok, model_look. cbn [l_ids l_lowest l_canon l_allat l_byhash]. rewrite Hml, Hms.
+    repeat (apply andb_true_iff; split).
+    - (* bounded after a LIB move *)
+      destruct moved; [|reflexivity]. cbn [negb orb]. apply forallb_forall. intros id Hid.
+      destruct (lookup id U) as [b'|] eqn:L; [|reflexivity]. apply N.leb_le.
+      apply all_ids_in in Hid. apply in_map_iff in Hid as (e & Ek & He).
+      assert (L2 : lookup id U = Some (eb e)) by (rewrite <- Ek; apply (lookup_U U U_uniq); apply HU; exact He).
+      rewrite L in L2. injection L2 as ->.
+      pose proof (Hmoved eq_refl) as Hb. unfold bounded, cutoff in Hb. rewrite Forall_forall in Hb. apply Hb. exact He.
+    - (* retained *)
+      apply forallb_forall. intros b Hb. destruct (Hseen b Hb) as [HbU Hst].
+      destruct (N.leb_spec (rn (libref (db s))) (bnum b)) as [Hle|Hlt]; [|reflexivity]. cbn [negb orb].
+      destruct Hst as [Hst|Hlt]; [|lia].
+      destruct (found_of_st U U_uniq s b HU HbU Hst) as [Hh (l & Hl & Hin)].
+      destruct (Hq b HbU) as [Hqi Hqh].
+      destruct (index_of_in _ _ Hqi) as (i & Hi & Hni). destruct (index_of_in _ _ Hqh) as (j & Hj & Hnj).
+      rewrite Hi, Hj, (nth_opt_map _ _ _ _ Hni), (nth_opt_map _ _ _ _ Hnj), Hh, Hl. cbn [andb].
+      apply memN_In. exact Hin.
+    - (* canonical *)
+      apply forallb_forall. intros c Hc.
+      destruct (N.leb_spec (rn (libref (db s))) (bnum c)) as [Hle|Hlt]; [|reflexivity]. cbn [negb orb].
+      pose proof (stack_in_U s Fin S HI c Hc) as HcU. destruct (Hq c HcU) as [_ Hqh].
+      destruct (index_of_in _ _ Hqh) as (j & Hj & Hnj). rewrite Hj, (nth_opt_map _ _ _ _ Hnj).
+      rewrite (canonical_window U r0 cfg U_id U_uniq U_up L_id L_num L_up L_decl s Fin S c HI HE Hc) by lia. apply N.eqb_refl.
+    - (* lowest servable number *)
+      pose proof (head_is_top U r0 cfg U_id U_uniq U_up s Fin S HI HE) as Hls.
+      destruct S as [|top S'] eqn:ES.
+      + unfold lowest_block_num. rewrite Hls. reflexivity.
+      + rewrite <- ES in *.
+        destruct (shape_of U r0 cfg U_id U_uniq U_up s Fin S top HI HE Hls) as (p & q0 & bot & ehd & Hsh).
+        destruct (lowest_of_shape U r0 cfg U_id U_up s Fin S top p q0 bot ehd HI Hls Hsh) as (e0 & rest & Hq' & Hlow).
+        rewrite Hlow. apply N.eqb_eq.
+        pose proof (sh_q _ _ _ _ _ _ _ _ _ Hsh) as Hch.
+        destruct (@exists_last _ (q0 ++ p)) as (qq & e & Hqq); [rewrite Hq'; discriminate|].
+        assert (Ee : eb e = top).
+        { rewrite Hqq in Hch. destruct (chain_top _ _ _ _ _ Hch) as [Hf _].
+          rewrite (sh_hd _ _ _ _ _ _ _ _ _ Hsh) in Hf. injection Hf as <-. apply (sh_ehd _ _ _ _ _ _ _ _ _ Hsh). }
+        rewrite <- Ee.
+        rewrite (lowest_from_chain s (all_ids s)) with (x := bid top) (bot := bot) (q := q0 ++ p) (qq := qq).
+        * rewrite Hq'. reflexivity.
+        * intros id. rewrite memN_In. apply all_ids_in.
+        * exact HU.
+        * exact Hch.
+        * apply (sh_bot _ _ _ _ _ _ _ _ _ Hsh).
+        * exact Hqq.
+        * pose proof (chain_len_U _ _ _ _ (di_nodup _ _ _ Hdb) HU Hwf Hch) as Hlen.
+          rewrite Hqq, app_length in Hlen. cbn [length] in Hlen. lia.
+    - (* no lookup crashed *)
+      apply forallb_forall. intros x Hx. apply in_map_iff in Hx as (n & <- & _). reflexivity.
+  Qed.
 End Follow.
